@@ -11,6 +11,7 @@ from props.c01 import invalid_from
 
 TITLE = "RandomGen returns only valid sequences"
 LEVEL = "proof"
+DOMAINS = ['Design', 'Random']
 
 
 def run(ctx, res):
